@@ -378,10 +378,24 @@ class Engine:
         Optional: in the branch where the test decides the alternative the name is rebound to its payload."""
         if isinstance(test, ast.UnaryOp) and isinstance(test.op, ast.Not):
             return self.refinements(test.operand, st, not positive)
+        if isinstance(test, ast.BoolOp) and ((isinstance(test.op, ast.And) and positive)
+                                             or (isinstance(test.op, ast.Or) and not positive)):
+            acc: dict[str, Val] = {}  # every conjunct holds (every disjunct fails): all their refinements apply
+            for sub in test.values:
+                acc.update(self.refinements(sub, st, positive))
+            return acc
         out: dict[str, Val] = {}
         if isinstance(test, ast.Call) and getattr(test.func, "id", None) == "isinstance" and len(test.args) == 2 \
-                and isinstance(test.args[0], ast.Name) and test.args[0].id in st.env:
-            v = st.env[test.args[0].id]
+                and _path_of(test.args[0]) is not None and (isinstance(test.args[0], ast.Attribute)
+                                                             or test.args[0].id in st.env):
+            pth = _path_of(test.args[0])
+            try:
+                v = self.eval(test.args[0], st)
+            except Unsupported:
+                return out
+            test = ast.Call(func=test.func, args=[ast.Name(id=pth, ctx=ast.Load()), test.args[1]], keywords=[])
+            st = st.copy()
+            st.env[pth] = v
             t = test.args[1]
             names = [t.id] if isinstance(t, ast.Name) else [e.id for e in t.elts if isinstance(e, ast.Name)] \
                 if isinstance(t, ast.Tuple) else []
@@ -771,6 +785,11 @@ class Engine:
     def assign(self, tgt: ast.expr, v: Val, st: State, node, writeback: bool = False):
         """writeback=True: the new value of a *mutated* object is stored back through its l-value (field store, method
         with a `modifies` contract); False: the name is rebound."""
+        root = _path_of(tgt) if isinstance(tgt, (ast.Name, ast.Attribute)) else None
+        if root is not None:  # refinements of attribute paths below (or equal to) the assigned l-value are stale
+            base = root.split(".")[0]
+            for k_ in [k_ for k_ in st.env if "." in k_ and (k_ == root or k_.startswith(root + ".") or k_.split(".")[0] == base)]:
+                del st.env[k_]
         if isinstance(tgt, ast.Name):
             hint = self.c.locals_.get(tgt.id)
             if hint is not None:
@@ -866,6 +885,9 @@ class Engine:
         raise Unsupported(f"unknown name {node.id}", node)
 
     def e_Attribute(self, node, st):
+        pth = _path_of(node)
+        if pth is not None and pth in st.env:  # an attribute path narrowed by a flow refinement
+            return st.env[pth]
         base = self.eval(node.value, st)
         if isinstance(base.ty, TOpt) and isinstance(base.ty.elem, TRec):
             self.raise_if(st, base.ty.is_none(base.t), "AttributeError", node.lineno)
@@ -1090,6 +1112,10 @@ class Engine:
     def coerce(self, v: Val, ty: Ty, st: State, node) -> Val:
         if v.ty is ty or v.ty.name == ty.name:
             return v
+        if ty is TObj and (v.ty is TStr or v.ty is TInt or v.ty is TBool):
+            # a string / number used where any object is expected: boxed by an (uninterpreted) injection of its sort
+            box = z3.Function(f"box:{v.ty.name}", v.ty.sort(), TObj.sort())
+            return Val(TObj, box(v.t))
         if isinstance(ty, TOpt):
             if isinstance(v.ty, TNoneT):
                 return Val(ty, ty.none())
@@ -2158,6 +2184,17 @@ def _mentions(t, c) -> bool:
         seen.add(x.get_id())
         stack.extend(x.children())
     return False
+
+
+def _path_of(e) -> str | None:
+    """'a' / 'a.b.c' for a name or a chain of attribute accesses on a name."""
+    parts = []
+    while isinstance(e, ast.Attribute):
+        parts.append(e.attr)
+        e = e.value
+    if isinstance(e, ast.Name):
+        return ".".join([e.id] + parts[::-1])
+    return None
 
 
 def _mutable_kind(v) -> bool:
